@@ -149,7 +149,7 @@ def optimize_prec_assignment(model: MPS,
             elif model.full_cost:
                 # TODO: this is constant and can be pre-computed for efficiency
                 # TODO: should we add default bitwidth and format for non-MPS layers or not?
-                v = vars(layer)
+                v = dict(vars(layer))
                 v.update(shapes_dict(node))
                 base_model_cost = base_model_cost + cost_fn_map[lname](v)
 
